@@ -48,6 +48,7 @@ class Opts:
         self.logic_float = True       # float operands to AND/OR/NOT ...
         self.for_param = False        # FOR over a by-reference parameter (known finding)
         self.exit_stmts = True
+        self.builtins = True
         self.__dict__.update(kw)
 
 
@@ -290,7 +291,7 @@ class Gen:
             if etype(e) != t:
                 return self.atom(sc, t)
             return e
-        if p < 0.97:
+        if p < 0.97 and self.o.builtins:
             e = self.builtin_num(sc, t, depth - 1)
             if e is not None:
                 return e
@@ -360,7 +361,7 @@ class Gen:
         if depth <= 0 or r.random() < 0.35:
             return self.atom(sc, '$')
         p = r.random()
-        if p < 0.3:
+        if p < 0.3 or not self.o.builtins:
             return ('bin', '+', self.sexpr(sc, depth - 1), self.sexpr(sc, depth - 1))
         c = r.choice(['LEFT$', 'RIGHT$', 'MID$', 'MID$3', 'UCASE$', 'LCASE$', 'LTRIM$', 'RTRIM$', 'STR$',
                       'CHR$', 'SPACE$', 'STRING$', 'STRING$s'])
